@@ -538,7 +538,8 @@ func runC07(seed uint64, n int, tier string, outDir string) []*Stats {
 	}
 	cf.AddCases("builder_cases", "bytes * list (Z * Z * bytes) * bytes * bytes * Z * list Z * list Z * bool * Z * bool", "check_builder", bItems)
 
-	// --- glue: real builds with marker programs
+	// --- fixed corpus of known findings, then real builds with marker programs
+	glueKnownFindings(st)
 	glueN := n / 25
 	if glueN < 8 {
 		glueN = 8
@@ -764,6 +765,13 @@ func genFinalizeCase(r *Rng) *finCase {
 
 var markerRe = regexp.MustCompile(`^["'` + "`" + `]?(mk[0-9]+|9[0-9]{6})`)
 var identRe = regexp.MustCompile(`^[A-Za-z_$][A-Za-z0-9_$]*`)
+var generatedSymbolRe = regexp.MustCompile(`(_exports|_default)$|^(init_|require_|import_|__)`)
+var reportedGeneratedName bool
+
+type startImage struct {
+	base      string
+	line, col int
+}
 
 type smJSON struct {
 	Version        int       `json:"version"`
@@ -880,6 +888,63 @@ func glueSourceMap(r *Rng, st *Stats) []string {
 			panic(err)
 		}
 	}
+	// Composition through an input source map: a library of 2-3 marker files is
+	// bundled first (stage 1) into lib.js + lib.js.map (several sources); the
+	// main build imports ./lib.js, so its map must point through lib.js.map at
+	// the library's ORIGINAL files. The import is placed first or last in f0.js
+	// so that the multi-source file comes before or after other files.
+	withLib := r.Chance(40)
+	libDesc := ""
+	var libStart *startImage
+	if withLib {
+		nlib := r.Range(2, 3)
+		for i := 0; i < nlib; i++ {
+			name := fmt.Sprintf("l%d.js", i)
+			text := genMarkerFile(r, i, nlib, &counter, r.Intn(4))
+			text = strings.ReplaceAll(text, "./f", "./l")
+			text = regexp.MustCompile(`\bfn(\d)`).ReplaceAllString(text, "ln$1")
+			files[name] = text
+			if err := os.WriteFile(filepath.Join(dir, name), []byte(text), 0o644); err != nil {
+				panic(err)
+			}
+		}
+		lo := api.BuildOptions{AbsWorkingDir: dir, Outfile: filepath.Join(dir, "lib.js"), Write: true, Bundle: true, Format: api.FormatESModule,
+			LogLevel: api.LogLevelSilent, EntryPoints: []string{"l0.js"}, Sourcemap: api.SourceMapLinked,
+			MinifyWhitespace: r.Chance(40), MinifyIdentifiers: r.Chance(30), MinifySyntax: r.Chance(30)}
+		lres := api.Build(lo)
+		if len(lres.Errors) > 0 {
+			st.Fail("glue-build-error", map[string]interface{}{"files": files, "stage": "library"}, lres.Errors[0].Text, "no error")
+			return nil
+		}
+		libText, _ := os.ReadFile(filepath.Join(dir, "lib.js"))
+		files["lib.js"] = string(libText)
+		// where does the START of lib.js map to? Code the linker generates for
+		// lib.js (its __export block, wrappers) is mapped to lib.js:0:0 and then
+		// through lib.js.map to this position
+		if mapText, err := os.ReadFile(filepath.Join(dir, "lib.js.map")); err == nil {
+			var lm smJSON
+			if json.Unmarshal(mapText, &lm) == nil {
+				if segs, ok := decodeMappings([]byte(lm.Mappings)); ok {
+					for _, sg := range segs {
+						if sg.gl == 0 && sg.gc == 0 && sg.hasSrc && sg.s >= 0 && sg.s < len(lm.Sources) {
+							libStart = &startImage{filepath.Base(lm.Sources[sg.s]), sg.ol, sg.c}
+						}
+					}
+				}
+			}
+		}
+		imp := "import * as LIB from \"./lib.js\"; console.log(LIB);\n"
+		if r.Bool() {
+			files["f0.js"] = imp + files["f0.js"]
+		} else {
+			files["f0.js"] = files["f0.js"] + imp
+		}
+		if err := os.WriteFile(filepath.Join(dir, "f0.js"), []byte(files["f0.js"]), 0o644); err != nil {
+			panic(err)
+		}
+		libDesc = fmt.Sprintf(" input-map-library(files=%d minify=%v/%v/%v)", nlib, lo.MinifyWhitespace, lo.MinifyIdentifiers, lo.MinifySyntax)
+		st.Histogram["glue-with-input-source-map"]++
+	}
 	opts := api.BuildOptions{
 		AbsWorkingDir: dir,
 		Outdir:        filepath.Join(dir, "out"),
@@ -888,7 +953,7 @@ func glueSourceMap(r *Rng, st *Stats) []string {
 		LogLevel:      api.LogLevelSilent,
 	}
 	desc := map[string]interface{}{"files": files}
-	bundle := r.Chance(70)
+	bundle := r.Chance(70) || withLib
 	opts.Bundle = bundle
 	opts.EntryPoints = []string{"f0.js"}
 	splitting := bundle && nfiles >= 2 && r.Chance(50)
@@ -923,7 +988,7 @@ func glueSourceMap(r *Rng, st *Stats) []string {
 	if r.Chance(15) {
 		opts.LineLimit = 40
 	}
-	desc["options"] = fmt.Sprintf("bundle=%v splitting=%v sourcemap=%d minify=%v/%v/%v banner=%v charset=%d linelimit=%d entrynames=%q chunknames=%q", bundle, splitting, opts.Sourcemap, opts.MinifyWhitespace, opts.MinifyIdentifiers, opts.MinifySyntax, opts.Banner != nil, opts.Charset, opts.LineLimit, opts.EntryNames, opts.ChunkNames)
+	desc["options"] = fmt.Sprintf("bundle=%v splitting=%v sourcemap=%d minify=%v/%v/%v banner=%v charset=%d linelimit=%d entrynames=%q chunknames=%q", bundle, splitting, opts.Sourcemap, opts.MinifyWhitespace, opts.MinifyIdentifiers, opts.MinifySyntax, opts.Banner != nil, opts.Charset, opts.LineLimit, opts.EntryNames, opts.ChunkNames) + libDesc
 	res := api.Build(opts)
 	st.Evaluations++
 	st.Histogram["glue-build"]++
@@ -1036,6 +1101,9 @@ func glueSourceMap(r *Rng, st *Stats) []string {
 				continue
 			}
 			fileStart := a.ol == 0 && a.c == 0
+			if libStart != nil && a.s >= 0 && a.s < len(sm.Sources) && filepath.Base(sm.Sources[a.s]) == libStart.base && a.ol == libStart.line && a.c == libStart.col {
+				fileStart = true // image of the start of the intermediate file lib.js
+			}
 			if fileStart {
 				st.Histogram["glue-mapped-to-file-start"]++
 			}
@@ -1048,6 +1116,27 @@ func glueSourceMap(r *Rng, st *Stats) []string {
 					continue
 				}
 				id := identRe.FindString(otext)
+				if id != sm.Names[a.n] && generatedSymbolRe.MatchString(sm.Names[a.n]) && !nameOccursInSources(sm.Names[a.n], files) {
+					// esbuild records the name of a symbol it generated itself (the
+					// namespace object "lib_exports" that replaces `import * as LIB`,
+					// "init_x"/"require_x" wrappers) where the source has another
+					// identifier or none: a recorded finding, reported once per run
+					st.Histogram["glue-generated-symbol-name"]++
+					if !reportedGeneratedName {
+						reportedGeneratedName = true
+						st.Fail("glue-name-of-generated-symbol", map[string]interface{}{"scenario": "generated-symbol-name-recorded", "options": desc["options"]},
+							map[string]interface{}{"name": sm.Names[a.n], "original_at": clip(otext)}, "names[n] is the identifier at the original position")
+					}
+					continue
+				}
+				if id != sm.Names[a.n] && withLib && strings.HasPrefix(filepath.Base(sm.Sources[a.s]), "l") &&
+					nameOccursInSources(sm.Names[a.n], map[string]string{"intermediate": files["lib.js"]}) {
+					// composition through an input map keeps the INTERMEDIATE file's
+					// identifier as the name when the input mapping carries none
+					// (documented in ChunkBuilder.appendMapping)
+					st.Histogram["glue-intermediate-name-kept"]++
+					continue
+				}
 				if id != sm.Names[a.n] {
 					st.Fail("glue-name-not-original-identifier", desc, map[string]interface{}{"mapping": a, "name": sm.Names[a.n], "original_at": clip(otext)}, "names[n] is the identifier at the original position")
 					continue
@@ -1203,10 +1292,54 @@ func checkTablesAgainstScan(text string) string {
 
 func nameOccursInSources(name string, files map[string]string) bool {
 	re := regexp.MustCompile(`(^|[^A-Za-z0-9_$])` + regexp.QuoteMeta(name) + `($|[^A-Za-z0-9_$])`)
-	for _, text := range files {
+	for fname, text := range files {
+		if fname == "lib.js" {
+			continue // the intermediate bundle is not an original source
+		}
 		if re.MatchString(text) {
 			return true
 		}
 	}
 	return false
+}
+
+// fixed corpus: replay of the known finding (namespace import recorded under
+// the generated exports-object name), run on every check
+func glueKnownFindings(st *Stats) {
+	dir, err := os.MkdirTemp("", "verif-c07-known-")
+	if err != nil {
+		panic(err)
+	}
+	defer os.RemoveAll(dir)
+	files := map[string]string{
+		"f0.js": "import * as LIB from \"./f2.js\";\nconsole.log(LIB);\nexport const mk1 = 9000001;\n",
+		"f2.js": "export const mk40 = [\"mk41\", 9000043];\n",
+	}
+	for name, text := range files {
+		if err := os.WriteFile(filepath.Join(dir, name), []byte(text), 0o644); err != nil {
+			panic(err)
+		}
+	}
+	res := api.Build(api.BuildOptions{AbsWorkingDir: dir, Outdir: filepath.Join(dir, "out"), Write: false, Format: api.FormatESModule,
+		LogLevel: api.LogLevelSilent, Bundle: true, EntryPoints: []string{"f0.js"}, Sourcemap: api.SourceMapExternal, MinifyIdentifiers: true})
+	st.Evaluations++
+	st.Histogram["glue-known-replay"]++
+	for _, f := range res.OutputFiles {
+		if !strings.HasSuffix(f.Path, ".js.map") {
+			continue
+		}
+		var sm smJSON
+		if json.Unmarshal(f.Contents, &sm) != nil {
+			continue
+		}
+		for _, nm := range sm.Names {
+			if generatedSymbolRe.MatchString(nm) && !nameOccursInSources(nm, files) {
+				reportedGeneratedName = true
+				st.Fail("glue-name-of-generated-symbol", map[string]interface{}{"scenario": "generated-symbol-name-recorded", "options": "fixed corpus: `import * as LIB from './f2.js'; console.log(LIB)` bundled with minify-identifiers, external map"},
+					map[string]interface{}{"name": nm}, "names[n] is the identifier at the original position")
+				return
+			}
+		}
+	}
+	st.Histogram["known-finding-no-longer-reproduces:generated-symbol-name-recorded"]++
 }
